@@ -292,7 +292,9 @@ def render_rule(rep, prog, cfg):
     if len(bs) != 1:
         rep.fail(rule + ".anchor", cfg, RAWLIST + "render", "function not found")
         return
-    b = bs[0]
+    # the two forms may be written in private helpers (`render_single` / `render_wrapped`, `Command::into_line`): spliced in (A12)
+    from ..inline import module_private_helpers
+    b = inlined(prog, bs[0], module_private_helpers(bs[0]))
     g = Cfg(b)
     # the `len == 1` test
     one = None
